@@ -60,8 +60,9 @@ class VConfig:
         layout = recipe["layout"]
         # per-frame boxes: constant, or breathing / drifting as in a constant-pressure run
         self.Ls, self.los = [], []
-        vary = recipe.get("boxes", "const") == "vary"
+        vary = recipe.get("boxes", "const") in ("vary", "cycle")
         creep = recipe.get("boxes", "const") == "creep"
+        cycle = recipe.get("boxes", "const") == "cycle"      # compress / release: the last box is the first again
         for _t in range(T):
             if creep and _t > 0:
                 # a slowly compressed cell: consecutive boxes differ in the sixth digit only
@@ -71,6 +72,8 @@ class VConfig:
                 Lt = np.round(self.L * (1.0 + rng.uniform(-0.12, 0.12, size=ndim)), 3)
                 lot = -Lt / 2 if ok == "centred" else np.round(self.lo + rng.uniform(-0.5, 0.5, size=ndim), 3)
             else:
+                Lt, lot = self.L.copy(), np.array(self.lo, dtype=float)
+            if cycle and _t == T - 1:
                 Lt, lot = self.L.copy(), np.array(self.lo, dtype=float)
             self.Ls.append(Lt)
             self.los.append(lot)
@@ -234,17 +237,20 @@ class World(WorldBase):
             sw["nops"] = min(sw["nops"], 6)
             sw["w_volmat"] = 0
         if batch == "fault":
-            sw["faults"] = rng.sample(["interrupt", "oserror_write", "short_write", "short_read", "oserror_read"], rng.randint(1, 4))
+            sw["faults"] = rng.sample(["interrupt", "oserror_write", "short_write", "short_read", "oserror_read", "interrupt_line"], rng.randint(1, 4))
             sw["hold_max"] = rng.choice([0, 1, 3])
             sw["p_fault"] = rng.choice([0.2, 0.4])
             sw["chunk"] = rng.choice(CHUNKS[:4])
             sw["buf"] = rng.choice(BUFS[:4])
             sw["w_volmat"] = rng.choice([0, 1])
+            if "interrupt_line" in sw["faults"]:
+                sw["w_volmat"] = rng.choice([1, 2, 3])
         return sw
 
     def __init__(self, ctx, swarm):
         super().__init__(ctx, swarm)
         self.configs = {}
+        self.snaps = {}      # config name -> the session's one Snapshots object for it
         self.outs = {}       # prefix -> dict(cfg, frames_n, frames_w, gen)
         self.gen_no = {}
         self.handles = {}
@@ -306,9 +312,17 @@ class World(WorldBase):
             c = rng.choice(small)
             cfg = self.configs[c]
             save = rng.choice([None, None, "vm_out", "vm_b.npy"])
-            return {"op": "volume_matrix", "cfg": c, "nconfig": rng.randrange(cfg.T),
-                    "deltar": rng.choice([0.01, 0.002, 0.05]), "transform": rng.random() < 0.3,
-                    "save": save, "default_ndim": bool(cfg.ndim == 2 and rng.random() < 0.3)}
+            op = {"op": "volume_matrix", "cfg": c, "nconfig": rng.randrange(cfg.T),
+                  "deltar": rng.choice([0.01, 0.002, 0.05]), "transform": rng.random() < 0.3,
+                  "save": save, "default_ndim": bool(cfg.ndim == 2 and rng.random() < 0.3)}
+            if "interrupt_line" in sw["faults"] and rng.random() < 0.6:
+                # the analyst cancels the (slow) finite-difference loop at an arbitrary instant and
+                # carries on with the same trajectory object
+                nln = self.dry_lines(lambda: self.invoke_volmat(op, self.configs[c].snapshots()))
+                if nln > 0:
+                    op["fault"] = {"kind": "interrupt_line", "at": rng.randint(1, nln)}
+                    self.ctx.probe("dry_runs_lines")
+            return op
         raise AssertionError(kind)
 
     def gen_config(self, rng, small=False):
@@ -322,7 +336,7 @@ class World(WorldBase):
             rec = {"ndim": ndim, "N": N, "T": rng.randint(1, sw["maxT"]),
                    "origin": rng.choice(["any", "any", "centred", "zero", "int-sum-zero", "far"]),
                    "shape": rng.choice(["cube", "cube", "cube", "slab"]),
-                   "layout": rng.choice(["random", "lattice"]), "boxes": rng.choice(["const", "const", "vary", "creep"]),
+                   "layout": rng.choice(["random", "lattice"]), "boxes": rng.choice(["const", "const", "vary", "creep", "cycle"]),
                    "nvary": rng.random() < 0.25,
                    "subseed": rng.randrange(1 << 40)}
             if huge:
@@ -350,9 +364,40 @@ class World(WorldBase):
         o = self.outs.get(prefix)
         return o is not None and all(p in self.acked for p in o["paths"])
 
-    def invoke(self, op):
+    def session_snaps(self, cname):
+        """The trajectory object the analysts' session holds for this configuration: one
+        object, handed to every call (what an id- or attribute-keyed memo would latch on to)."""
+        if cname not in self.snaps:
+            self.snaps[cname] = self.configs[cname].snapshots()
+        return self.snaps[cname]
+
+    def check_session_snaps(self, cname):
+        """Whether a call changed its input is C18's business, not C20's: a changed session
+        object is counted and rebuilt so that C20's oracles keep judging the recorded data."""
+        live = self.snaps.get(cname)
+        if live is None:
+            return
+        fresh = self.configs[cname].snapshots()
+        for a, b in zip(live.snapshots, fresh.snapshots):
+            if not (np.array_equal(a.positions, b.positions) and np.array_equal(a.boxbounds, b.boxbounds)
+                    and np.array_equal(a.boxlength, b.boxlength)):
+                self.ctx.probe("session_trajectory_changed_by_a_call")
+                self.snaps[cname] = fresh
+                return
+
+    def invoke(self, op, snaps=None):
         from PyMatterSim.neighbors.freud_neighbors import cal_neighbors
-        return cal_neighbors(self.configs[op["cfg"]].snapshots(), outputfile=op["prefix"])
+        return cal_neighbors(snaps if snaps is not None else self.configs[op["cfg"]].snapshots(), outputfile=op["prefix"])
+
+    def invoke_volmat(self, op, snaps):
+        from PyMatterSim.neighbors.freud_neighbors import VolumeMatrix
+        cfg = self.configs[op["cfg"]]
+        kw = {"nconfig": op["nconfig"], "deltar": op["deltar"], "transform_matrix": op["transform"]}
+        if not op.get("default_ndim"):
+            kw["ndim"] = cfg.ndim
+        if op.get("save"):
+            kw["outputfile"] = op["save"]
+        return VolumeMatrix(snaps, **kw)
 
     def apply(self, op):
         self.tick_held()
@@ -385,7 +430,9 @@ class World(WorldBase):
         if any(h[2] == prefix for h in self.held):
             self.ctx.probe("rewrite_while_failed_call_held")
         fault = op.get("fault")
-        res, exc, (nev, dig, fired) = self.call(lambda: self.invoke(op), fault)
+        session = self.session_snaps(op["cfg"])
+        res, exc, (nev, dig, fired) = self.call(lambda: self.invoke(op, session), fault)
+        self.check_session_snaps(op["cfg"])
         if exc is not None:
             if fired and fired[0] in ("interrupt", "oserror_write"):
                 hold = fault.get("hold", 0)
@@ -550,9 +597,14 @@ class World(WorldBase):
             for p in (save, save + ".npy"):
                 if os.path.exists(p):
                     os.unlink(p)
-        snaps = cfg.snapshots()
-        res, exc, _ = self.call(lambda: VolumeMatrix(snaps, **kw))
+        snaps = self.session_snaps(op["cfg"])
+        res, exc, (_nev, _dig, fired) = self.call(lambda: VolumeMatrix(snaps, **kw), op.get("fault"))
+        self.check_session_snaps(op["cfg"])
         tag = "volume_matrix"
+        if exc is not None and fired and fired[0] == "interrupt_line":
+            self.drop_last()
+            self.ctx.probe("volmat_cancelled")
+            return f"{op['cfg']} cancelled at line {fired[2]}"
         if exc is not None:
             self.drop_last()
             if op["transform"] and exc[0] == "LinAlgError":
